@@ -864,7 +864,30 @@ def _eval_nobranch(it, node, frame):
             stmts = [s for s in body if not (isinstance(s, ast.Expr) and isinstance(s.value, ast.Constant))]
             if len(stmts) == 1 and isinstance(stmts[0], ast.Return):
                 return _eval_nobranch(it, stmts[0].value, fr)
-            raise Unsupported("closure in quantified predicate must be a single return")
+
+            def block(ss):
+                """boolean value of a straight-line / if-return body, as one formula (no forking)"""
+                if not ss:
+                    raise Unsupported("closure in quantified predicate falls off its end (returns None)")
+                st, rest = ss[0], ss[1:]
+                if isinstance(st, ast.Return) and st.value is not None:
+                    return it.as_goal(_eval_nobranch(it, st.value, fr))
+                if isinstance(st, ast.Assign) and len(st.targets) == 1 and isinstance(st.targets[0], ast.Name):
+                    it.assign(st.targets[0], _eval_nobranch(it, st.value, fr), fr)
+                    return block(rest)
+                if isinstance(st, ast.If):
+                    c = it.as_goal(_eval_nobranch(it, st.test, fr))
+                    saved = dict(fr.locals)
+                    tv = block(list(st.body) + rest)
+                    fr.locals.clear()
+                    fr.locals.update(saved)
+                    ev = block(list(st.orelse) + rest)
+                    fr.locals.clear()
+                    fr.locals.update(saved)
+                    return ops.zor(ops.zand(c, tv), ops.zand(_not(c), ev))
+                raise Unsupported("closure in quantified predicate must consist of assignments, if and return")
+
+            return block(stmts)
     return it.eval(node, frame)
 
 
